@@ -155,6 +155,25 @@ pub fn values(ty: &Ty, cap: usize) -> Vec<Val> {
             v
         }
         Ty::Wrap(_, t) => values(t, cap),
+        Ty::Lib(l) if l.key.starts_with("BitVec") => {
+            // bit lengths around the 32 bit storage words, with an irregular pattern
+            [0usize, 1, 7, 8, 9, 31, 32, 33, 63, 64, 65, 100]
+                .iter()
+                .map(|n| Val::Seq((0..*n).map(|i| Val::Bool((i * 7 + i / 3) % 3 != 1)).collect()))
+                .collect()
+        }
+        Ty::Lib(l) if l.key.starts_with("BitSet") => vec![
+            Val::Seq(vec![]),
+            Val::Seq(vec![Val::U(0)]),
+            Val::Seq(vec![Val::U(31)]),
+            Val::Seq(vec![Val::U(32)]),
+            Val::Seq(vec![Val::U(0), Val::U(1), Val::U(33), Val::U(64), Val::U(100)]),
+            Val::Seq((0..70).filter(|i| i % 3 != 0).map(|i| Val::U(i as u128)).collect()),
+        ],
+        Ty::Lib(l) if l.key == "IoError" => ["NotFound", "PermissionDenied", "UnexpectedEof", "InvalidData", "Other", "TimedOut", "BrokenPipe"]
+            .iter()
+            .flat_map(|k| ["", "disk on fire ✓", &"m".repeat(64)].map(|m| Val::Tuple(vec![Val::Str(k.to_string()), Val::Str(m.to_string())])))
+            .collect(),
         Ty::Lib(l) => {
             let mut v: Vec<Val> = values(&l.wire, cap).into_iter().filter(|v| lib_accepts(&l.key, v)).collect();
             match l.key.as_str() {
